@@ -49,6 +49,10 @@ def run_studio(ctx, seed):
         ctx.count('studios_whose_operations_start_a_helper_process')
     w = dict(desc, seed=seed)
     with open_box(kind, prefix=rng.choice(['', 'st', 'replays-metadata', 'team/Metadata', 'full'])) as box:     # prefixes spelling the layout's own words
+        if box.fake is not None and seed % 4 == 1:
+            # the bucket's clock (the recording hosts') is ahead of this process's own clock: an open-ended lookup window has no end
+            box.fake.now = datetime.datetime.utcnow().replace(microsecond=0) + datetime.timedelta(days=400 + seed % 50)
+            ctx.count('s3_studios_with_the_store_clock_ahead')
         rec = TapeRecorder(box.cassette)
         rec.enable_recording()
         current = {}
